@@ -236,6 +236,68 @@ def excluded(src):
     return False
 
 
+SEARCH_PRELUDE = """local t = { 10, 20, 30, x = 1, a = { b = { c = 1 }, 7 }, s = "s", k1 = 5 }
+local function kf() ext_k() return 1 end
+local function xf() ext_x() return 2 end
+local function af() ext_a() return 3 end
+local function bf() ext_b() return 4 end
+local function f() ext_f() return 1 end
+local function g() ext_g() return 2 end
+local function h() ext_h() return 3 end
+local k, x, y, a, b, c, d, p, q, v, z = 1, 2, 3, 4, 5, true, false, true, nil, 6, 7
+local o = { m = function(self) ext_m() return t end }
+local M = {}
+"""
+
+SEARCH_PREAMBLE = """From Coq Require Import ZArith.
+From DL Require Import Lib.Bytes Lib.F64 Lua.Syntax Lua.Sem Lua.RunCheck.
+Open Scope N_scope.
+Open Scope string_scope.
+Definition bx := unhex.
+Definition nm := of_string.
+Definition stat_case (c : block * block) : N := compare_all 300%nat (fst c) (snd c).
+"""
+
+
+def search_failing_input(prop, bad_jobs):
+    """For programs on which model and code disagree: make the program observable (bind its free
+    names, make sub-expressions effectful, call the wrapper) and compare the runs of the input
+    and of the REAL rule's output in the reference interpreter.  Returns (rules, source) of a
+    program whose behaviour the rule changed, or None."""
+    import re
+    cands = []
+    for ids, rules, src in bad_jobs[:12]:
+        if 4 in ids:
+            continue            # `%*` is Luau-only by design
+        body = src + ("\nreturn w(1, 2)" if src.startswith("local function w(") else "")
+        variants = [body]
+        for pat, rep in ((r"\bk\b", "kf()"), (r"\bx\b", "xf()"), (r"\ba\b", "af()"), (r"\bb\b", "bf()")):
+            v = re.sub(pat, rep, body)
+            if v != body:
+                variants.append(v)
+        for v in variants:
+            cands.append((rules, SEARCH_PRELUDE + v))
+    if not cands:
+        return None
+    stdin = "".join("%s\t%s\t%s\n" % (r, '"dense"', s.encode().hex()) for r, s in cands)
+    out = C.harness("dl-rules", ["apply-batch"], input=stdin, timeout=600)
+    cases, index = [], {}
+    for (rules, src), line in zip(cands, out.splitlines()):
+        parts = line.split("\t")
+        if len(parts) != 4 or parts[0].startswith("ERR:") or parts[1].startswith("ERR:"):
+            continue
+        k = len(cases)
+        index[k] = (rules, src)
+        cases.append((k, "(%s, %s)" % (parts[0], parts[1])))
+    if not cases:
+        return None
+    stats = C.run_coq_stats(prop, SEARCH_PREAMBLE, cases, chunk=4, tag="local_search")
+    for k in sorted(stats):
+        if stats[k] == 2:
+            return index[k]
+    return None
+
+
 def run_stream(ctx, prop):
     """Returns the number of mismatching cases (after recording stream + violation)."""
     rnd = random.Random(ctx.seed ^ 0x10ca1)
@@ -298,9 +360,17 @@ def run_stream(ctx, prop):
                unparsable_templates=unparsable, rule_errors=len(rule_errors), changed_per_rule=per_rule)
     if bad:
         job = index[bad[0]]
-        ctx.violation("correspondence broken: the rule's output differs from the model's on %d of %d programs "
-                      "(the theorems about the model no longer describe the code)" % (len(bad), len(cases)),
-                      {"rules": job[1], "source": job[2], "stream": "local rewrites model-vs-code",
-                       "others": [{"rules": index[k][1], "source": index[k][2]} for k in bad[1:6]]},
-                      found_input=False)
+        found = search_failing_input(prop, [index[k] for k in bad])
+        if found is not None:
+            ctx.violation("the rule changes the behaviour of a program (found while searching around the programs on "
+                          "which the rule's output differs from the model's: %d of %d)" % (len(bad), len(cases)),
+                          {"rules": found[0], "source": found[1], "stream": "local rewrites model-vs-code + reference runs",
+                           "replay": "darklua process with these rules on this source; compare runs with Lua/RunCheck.v compare_all",
+                           "model_mismatch_on": {"rules": job[1], "source": job[2]}})
+        else:
+            ctx.violation("correspondence broken: the rule's output differs from the model's on %d of %d programs "
+                          "(the theorems about the model no longer describe the code)" % (len(bad), len(cases)),
+                          {"rules": job[1], "source": job[2], "stream": "local rewrites model-vs-code",
+                           "others": [{"rules": index[k][1], "source": index[k][2]} for k in bad[1:6]]},
+                          found_input=False)
     return len(bad)
